@@ -1,2 +1,3 @@
 pub mod c03;
+pub mod c08;
 pub mod layout_rustc;
